@@ -33,7 +33,7 @@ Record tstate : Type := {
   t_consts : smap unit;
   t_store : list (ckey * list (string * out));
   t_prov : list (ckey * list (string * loc));
-  t_imports : list string;              (* modules recorded by successful parse_config calls *)
+  t_imports : list string;              (* _IMPORTS: modules of the import statements that took effect, in order *)
   t_locked : bool }.
 
 Definition set_store st pv (s : tstate) := {| t_reg := t_reg s; t_consts := t_consts s; t_store := st; t_prov := pv;
@@ -210,7 +210,9 @@ Fixpoint resolve_group (s : tstate) (sk : skip_unknown) (fname : string) (stmts 
 (* what an include statement does: given the file name, the line and the state *)
 Definition inc_handler := string -> tstate -> tstate * sres itree.
 
-(* the statement consumer (2371-2398) on the statements one parse step yielded *)
+(* the statement consumer (2371-2398) on the statements one parse step yielded.  An import statement that took
+   effect is recorded (_IMPORTS.update, 2553) at once, in the state, besides being listed in the result: it stays
+   recorded when a later statement of the file fails *)
 Fixpoint apply_stmts (env : fenv) (sk : skip_unknown) (fname : string) (inc : inc_handler)
          (stmts : list stmt) (s : tstate) (imports : list string) (incl : list itree)
   : tstate * sres (list string * list itree) :=
@@ -241,7 +243,7 @@ Fixpoint apply_stmts (env : fenv) (sk : skip_unknown) (fname : string) (inc : in
           if str_in m (e_modules env) then
             match register_mod env m s with
             | SErr e => (s, with_loc (fname, line) (SErr e))
-            | SOk s' => apply_stmts env sk fname inc rest s' (imports ++ [m]) incl
+            | SOk s' => apply_stmts env sk fname inc rest (add_imports [m] s') (imports ++ [m]) incl
             end
           else if sk_truthy sk then apply_stmts env sk fname inc rest s imports incl
           else (s, with_loc (fname, line) (SErr (SEOther "ModuleNotFoundError" [])))
@@ -255,7 +257,8 @@ Fixpoint apply_stmts (env : fenv) (sk : skip_unknown) (fname : string) (inc : in
   end.
 
 (* parse_config on a token list: each statement (group) is applied before the next is tokenised;
-   include statements parse the named file immediately (parse_config_file, 2492-2505) *)
+   include statements parse the named file immediately (parse_config_file, 2492-2505), which records ITS imports
+   as they take effect and returns its own import list *)
 Fixpoint parse_tokens (fuel : nat) (env : fenv) (sk : skip_unknown) (fname : string)
          (o : oracle) (pending : bool) (ts : list token) (s : tstate) (imports : list string) (incl : list itree)
          {struct fuel} : tstate * sres (list string * list itree) :=
@@ -265,7 +268,7 @@ Fixpoint parse_tokens (fuel : nat) (env : fenv) (sk : skip_unknown) (fname : str
       match parse_statement o pending ts with
       | PErr (ESyntax line) => (s, SErr (SESyntax fname line))
       | PErr (EOther c) => (s, SErr (SEOther c []))
-      | POk None => (add_imports imports s, SOk (imports, incl))
+      | POk None => (s, SOk (imports, incl))
       | POk (Some (stmts, ts', pending')) =>
           match resolve_group s sk fname stmts with
           | SErr e => (s, SErr e)
@@ -313,6 +316,98 @@ Definition parse_config_file (env : fenv) (sk : skip_unknown) (name : string) (s
       | SErr e => (s', SErr e)
       | SOk (im, inc) => (s', SOk (INode name im inc))
       end
+  end.
+
+(* ---- the code before the repair (fix e251e03): the imports of a file were recorded only once, after its last
+   statement (`_IMPORTS.update(parse_context.imports)` after the loop), so a parse that failed later on left imports
+   that HAD taken effect unrecorded (refuted: C16_orig_failed_parse_loses_imports) ---- *)
+Fixpoint apply_stmts_orig (env : fenv) (sk : skip_unknown) (fname : string) (inc : inc_handler)
+         (stmts : list stmt) (s : tstate) (imports : list string) (incl : list itree)
+  : tstate * sres (list string * list itree) :=
+  match stmts with
+  | [] => (s, SOk (imports, incl))
+  | st :: rest =>
+      match st with
+      | SBind sc sel arg v line =>
+          let l := (fname, line) in
+          if String.eqb arg "" then
+            match bind s (if String.eqb sc "" then sel else sc ++ "/" ++ sel) "gin.macro" "value" v l with
+            | SErr e => (s, with_loc l (SErr e))
+            | SOk s' => apply_stmts_orig env sk fname inc rest s' imports incl
+            end
+          else if should_skip s sel sk then apply_stmts_orig env sk fname inc rest s imports incl
+          else match bind s sc sel arg v l with
+               | SErr e => (s, with_loc l (SErr e))
+               | SOk s' => apply_stmts_orig env sk fname inc rest s' imports incl
+               end
+      | SBlock sc sel line =>
+          if should_skip s sel sk then apply_stmts_orig env sk fname inc rest s imports incl else
+          match sm_get_match (to_key sel) (t_reg s) with
+          | MOne _ (Some _) => apply_stmts_orig env sk fname inc rest s imports incl
+          | MAmbiguous => (s, with_loc (fname, line) (SErr (SEOther "KeyError" [])))
+          | _ => (s, with_loc (fname, line) (SErr (SEOther "ValueError" [])))
+          end
+      | SImport m is_from alias line =>
+          if str_in m (e_modules env) then
+            match register_mod env m s with
+            | SErr e => (s, with_loc (fname, line) (SErr e))
+            | SOk s' => apply_stmts_orig env sk fname inc rest s' (imports ++ [m]) incl
+            end
+          else if sk_truthy sk then apply_stmts_orig env sk fname inc rest s imports incl
+          else (s, with_loc (fname, line) (SErr (SEOther "ModuleNotFoundError" [])))
+      | SInclude v line =>
+          let '(s', r) := inc (str_of_value v) s in
+          match r with
+          | SErr e => (s', with_loc (fname, line) (SErr e))
+          | SOk t => apply_stmts_orig env sk fname inc rest s' imports (incl ++ [t])
+          end
+      end
+  end.
+
+Fixpoint parse_tokens_orig (fuel : nat) (env : fenv) (sk : skip_unknown) (fname : string)
+         (o : oracle) (pending : bool) (ts : list token) (s : tstate) (imports : list string) (incl : list itree)
+         {struct fuel} : tstate * sres (list string * list itree) :=
+  match fuel with
+  | O => (s, SErr (SEOther "RecursionError" []))
+  | S f =>
+      match parse_statement o pending ts with
+      | PErr (ESyntax line) => (s, SErr (SESyntax fname line))
+      | PErr (EOther c) => (s, SErr (SEOther c []))
+      | POk None => (add_imports imports s, SOk (imports, incl))
+      | POk (Some (stmts, ts', pending')) =>
+          match resolve_group s sk fname stmts with
+          | SErr e => (s, SErr e)
+          | SOk stmts' =>
+              let inc : inc_handler := fun name s =>
+                match resolve_file env name with
+                | None => (s, SErr (SEOther "OSError" []))
+                | Some (full, g) =>
+                    let '(s', r) :=
+                      match settle (f_tokens g) with
+                      | PErr (ESyntax ln) => (s, SErr (SESyntax full ln))
+                      | PErr (EOther c) => (s, SErr (SEOther c []))
+                      | POk ts0 => parse_tokens_orig f env sk full (f_oracle g) false ts0 s [] []
+                      end in
+                    match r with
+                    | SErr e => (s', SErr e)
+                    | SOk (im, ic) => (s', SOk (INode name im ic))
+                    end
+                end in
+              let '(s1, r) := apply_stmts_orig env sk fname inc stmts' s imports incl in
+              match r with
+              | SErr e => (s1, SErr e)
+              | SOk (imports', incl') => parse_tokens_orig f env sk fname o pending' ts' s1 imports' incl'
+              end
+          end
+      end
+  end.
+
+Definition parse_config_orig (env : fenv) (sk : skip_unknown) (fname : string) (g : gfile) (s : tstate)
+  : tstate * sres (list string * list itree) :=
+  match settle (f_tokens g) with
+  | PErr (ESyntax line) => (s, SErr (SESyntax fname line))
+  | PErr (EOther c) => (s, SErr (SEOther c []))
+  | POk ts => parse_tokens_orig 60 env sk fname (f_oracle g) false ts s [] []
   end.
 
 (* ---- observations ---- *)
